@@ -1,2 +1,105 @@
-(* placeholder: property theorems are added with Proofs.v *)
-From LV Require Import Shachain.Model.
+(* C06 property theorems (store / producer / codec half).  Statements only;
+   proofs are in Proofs.v.  The hash function H, the bit flip and the hash
+   equality test are universally quantified: every theorem holds for ANY hash.
+   The only hypothesis on them is that hash_eqb decides equality (Go compares
+   [32]byte arrays).  k = length hs is the number of secrets received so far;
+   the guard k <= 2^48-1 (= start_index) is the size of the index space. *)
+From Coq Require Import List NArith.
+From LV Require Import Shachain.Model Shachain.Proofs.
+Import ListNotations.
+Local Open Scope N_scope.
+
+(* every accepted sequence of secrets is reproduced exactly *)
+Theorem C06_store_exact :
+  forall (hash : Type) (H : hash -> hash) (flip : N -> hash -> hash)
+         (hash_eqb : hash -> hash -> bool),
+    (forall a b, hash_eqb a b = true <-> a = b) ->
+  forall (hs : list hash) (st : store hash),
+    add_all hash H flip hash_eqb new_store hs = Some st ->
+    N.of_nat (length hs) <= start_index ->
+    forall i h, nth_error hs i = Some h ->
+                lookup hash H flip st (N.of_nat i) = Some h.
+Proof. exact store_exact. Qed.
+
+(* ... and keeps being reproduced after any further accepted inserts *)
+Theorem C06_store_stable :
+  forall (hash : Type) (H : hash -> hash) (flip : N -> hash -> hash)
+         (hash_eqb : hash -> hash -> bool),
+    (forall a b, hash_eqb a b = true <-> a = b) ->
+  forall (hs more : list hash) (st st' : store hash),
+    add_all hash H flip hash_eqb new_store hs = Some st ->
+    add_all hash H flip hash_eqb st more = Some st' ->
+    N.of_nat (length hs + length more) <= start_index ->
+    forall i h, nth_error hs i = Some h ->
+                lookup hash H flip st' (N.of_nat i) = Some h.
+Proof. exact store_stable. Qed.
+
+(* the producer's own sequence is always accepted, and the store then answers
+   every lookup exactly like the producer *)
+Theorem C06_producer_accepted :
+  forall (hash : Type) (H : hash -> hash) (flip : N -> hash -> hash)
+         (hash_eqb : hash -> hash -> bool),
+    (forall a b, hash_eqb a b = true <-> a = b) ->
+  forall (root : hash) (hs : list hash),
+    N.of_nat (length hs) <= start_index ->
+    (forall i, (i < length hs)%nat ->
+               nth_error hs i = at_index hash H flip root (N.of_nat i)) ->
+    exists st : store hash,
+      add_all hash H flip hash_eqb new_store hs = Some st /\
+      forall i, (i < length hs)%nat ->
+                lookup hash H flip st (N.of_nat i) = at_index hash H flip root (N.of_nat i).
+Proof. exact producer_accepted. Qed.
+
+(* the (k+1)-th secret h is rejected iff for some b below the number of
+   trailing zeros of its index 2^48-1-k the secret received 2^b steps earlier
+   is not H(flip b h) *)
+Theorem C06_reject_inconsistent :
+  forall (hash : Type) (H : hash -> hash) (flip : N -> hash -> hash)
+         (hash_eqb : hash -> hash -> bool),
+    (forall a b, hash_eqb a b = true <-> a = b) ->
+  forall (hs : list hash) (st : store hash) (h : hash),
+    add_all hash H flip hash_eqb new_store hs = Some st ->
+    N.of_nat (length hs) < start_index ->
+    let k := N.of_nat (length hs) in
+    (add_next hash H flip hash_eqb st h = None <->
+     exists b, b < count_trailing_zeros (start_index - k) /\
+               nth_error hs (N.to_nat (k - 2 ^ b)) <> Some (H (flip b h))).
+Proof. exact reject_iff. Qed.
+
+Theorem C06_accept_criterion :
+  forall (hash : Type) (H : hash -> hash) (flip : N -> hash -> hash)
+         (hash_eqb : hash -> hash -> bool),
+    (forall a b, hash_eqb a b = true <-> a = b) ->
+  forall (hs : list hash) (st : store hash) (h : hash),
+    add_all hash H flip hash_eqb new_store hs = Some st ->
+    N.of_nat (length hs) < start_index ->
+    let k := N.of_nat (length hs) in
+    (add_next hash H flip hash_eqb st h <> None <->
+     forall b, b < count_trailing_zeros (start_index - k) ->
+               2 ^ b <= k /\
+               nth_error hs (N.to_nat (k - 2 ^ b)) = Some (H (flip b h))).
+Proof. exact accept_iff. Qed.
+
+(* the gap in "rejects any secret not consistent with the earlier ones": at an
+   index without trailing zeros there is nothing to check against *)
+Theorem C06_leaf_unchecked :
+  forall (hash : Type) (H : hash -> hash) (flip : N -> hash -> hash)
+         (hash_eqb : hash -> hash -> bool),
+    (forall a b, hash_eqb a b = true <-> a = b) ->
+  forall (hs : list hash) (st : store hash),
+    add_all hash H flip hash_eqb new_store hs = Some st ->
+    N.of_nat (length hs) < start_index ->
+    count_trailing_zeros (start_index - N.of_nat (length hs)) = 0 ->
+    forall h, add_next hash H flip hash_eqb st h <> None.
+Proof. exact leaf_unchecked. Qed.
+
+(* at most 48 buckets (+ the index) are ever stored *)
+Theorem C06_bounded :
+  forall (hash : Type) (H : hash -> hash) (flip : N -> hash -> hash)
+         (hash_eqb : hash -> hash -> bool),
+    (forall a b, hash_eqb a b = true <-> a = b) ->
+  forall (hs : list hash) (st : store hash),
+    add_all hash H flip hash_eqb new_store hs = Some st ->
+    N.of_nat (length hs) <= start_index ->
+    len_buckets st <= 48.
+Proof. exact bounded. Qed.
